@@ -7,6 +7,7 @@ import (
 	"encoding/json"
 	"fmt"
 	"reflect"
+	"strings"
 	"testing"
 
 	"pgregory.net/rapid"
@@ -148,27 +149,59 @@ var codeNames = map[byte]string{0x00: "CreateDirectory", 0x01: "DeleteDirectory"
 	0x72: "Negotiate", 0x73: "SessionSetupAndx", 0x74: "LogoffAndx", 0x75: "TreeConnectAndx", 0x80: "QueryInformationDisk", 0x81: "Search", 0x82: "Find", 0x83: "FindUnique",
 	0x84: "FindClose", 0xA0: "NtTransact", 0xA1: "NtTransactSecondary", 0xA2: "NtCreateAndx", 0xA4: "NtCancel", 0xA5: "NtRename", 0xC0: "OpenPrintFile", 0xC1: "WritePrintFile", 0xC2: "ClosePrintFile"}
 
+// the 114 structures the library defined when the harness was written (the list C04's factory-inventory
+// compares the factories with). "Implemented" below means: named here. It is deliberately not asked of
+// the factories under test, so that a (code, direction) pair dropped from a factory is a violation and
+// not a pair the check stops expecting.
+var frozen = func() map[string]bool {
+	m := map[string]bool{}
+	for _, n := range strings.Fields(`CheckDirectoryRequest CheckDirectoryResponse ClosePrintFileRequest ClosePrintFileResponse CloseRequest CloseResponse CreateDirectoryRequest CreateDirectoryResponse CreateNewRequest CreateNewResponse CreateRequest CreateResponse CreateTemporaryRequest CreateTemporaryResponse DeleteDirectoryRequest DeleteDirectoryResponse DeleteRequest DeleteResponse EchoRequest EchoResponse FindClose2Request FindClose2Response FindCloseRequest FindCloseResponse FindRequest FindResponse FindUniqueRequest FindUniqueResponse FlushRequest FlushResponse IoctlRequest IoctlResponse LockAndReadRequest LockAndReadResponse LockByteRangeRequest LockByteRangeResponse LockingAndxRequest LockingAndxResponse LogoffAndxRequest LogoffAndxResponse NegotiateRequest NegotiateResponse NtCancelRequest NtCreateAndxRequest NtCreateAndxResponse NtRenameRequest NtRenameResponse NtTransactRequest NtTransactResponse NtTransactSecondaryRequest NtTransactSecondaryResponse OpenAndxRequest OpenAndxResponse OpenPrintFileRequest OpenPrintFileResponse OpenRequest OpenResponse ProcessExitRequest ProcessExitResponse QueryInformation2Request QueryInformation2Response QueryInformationDiskRequest QueryInformationDiskResponse QueryInformationRequest QueryInformationResponse ReadAndxRequest ReadAndxResponse ReadMpxRequest ReadMpxResponse ReadRawRequest ReadRequest ReadResponse RenameRequest RenameResponse SearchRequest SearchResponse SeekRequest SeekResponse SessionSetupAndxRequest SessionSetupAndxResponse SetInformation2Request SetInformation2Response SetInformationRequest SetInformationResponse Transaction2Request Transaction2Response Transaction2SecondaryRequest Transaction2SecondaryResponse TransactionRequest TransactionResponse TransactionSecondaryRequest TransactionSecondaryResponse TreeConnectAndxRequest TreeConnectAndxResponse TreeConnectRequest TreeConnectResponse TreeDisconnectRequest TreeDisconnectResponse UnlockByteRangeRequest UnlockByteRangeResponse WriteAndCloseRequest WriteAndCloseResponse WriteAndUnlockRequest WriteAndUnlockResponse WriteAndxRequest WriteAndxResponse WriteMpxRequest WriteMpxResponse WritePrintFileRequest WritePrintFileResponse WriteRawFinal WriteRawRequest WriteRequest WriteResponse`) {
+		m[n] = true
+	}
+	return m
+}()
+
+// dispCase: one (code, direction) pair, crossed with the header's Status and with what follows the header:
+// the two empty blocks (WordCount 0, ByteCount 0) or, for implemented pairs, the blocks of the
+// factory-fresh structure of that pair (non-empty for every structure that has a parameter field).
+// Which structure a message decodes to depends on the command code and the reply flag only.
 type dispCase struct {
-	Code  uint8 `json:"code"`
-	Reply bool  `json:"reply"`
+	Code   uint8  `json:"code"`
+	Reply  bool   `json:"reply"`
+	Status uint32 `json:"status"`
+	Body   bool   `json:"default_structure_body"`
 }
 
 func checkDispatch(c dispCase) []vf.Finding {
 	h := header.NewHeader()
 	h.Command = codes.CommandCode(c.Code)
+	h.Status = c.Status
 	if c.Reply {
 		h.SetFlags(0x80)
 	}
 	hb, _ := h.Marshal()
-	wire := append(hb, 0x00, 0x00, 0x00) // WordCount 0, ByteCount 0
-	m := message.NewMessage()
-	err := m.Unmarshal(wire)
 	subject := fmt.Sprintf("code-%#02x-%s", c.Code, map[bool]string{false: "request", true: "response"}[c.Reply])
+	wire := append(hb, 0x00, 0x00, 0x00) // WordCount 0, ByteCount 0
+	if c.Body {
+		// implemented pairs only (the enumerator sees to that): the structure comes from the frozen
+		// table, so a pair the factories no longer serve is reported here as well
+		want, _ := expectedType(c)
+		e, ok := smbgen.ByName(want)
+		if !ok {
+			return []vf.Finding{vf.F(subject, "implemented-pair-rejected", "the factories do not create %s", want)}
+		}
+		body, err := smbgen.NewValid(e).Marshal()
+		if err != nil {
+			return []vf.Finding{vf.F(subject, "marshal-error", "factory-fresh %s: %v", want, err)}
+		}
+		wire = append(hb, body...)
+	}
+	m := message.NewMessage()
+	err := safeUnmarshal(m, wire)
 	if err != nil {
-		// an error is fine for pairs the library does not implement; for implemented ones the
-		// factory-inventory comparison in C04 notices a structure that disappeared
+		// an error is fine for pairs MS-CIFS does not define or the library never implemented
 		if _, ok := expectedType(c); ok && implemented(c) {
-			return []vf.Finding{vf.F(subject, "implemented-pair-rejected", "%v", err)}
+			return []vf.Finding{vf.F(subject, "implemented-pair-rejected", "status %#x, %d bytes after the header: %v", c.Status, len(wire)-32, err)}
 		}
 		return nil
 	}
@@ -185,7 +218,7 @@ func checkDispatch(c dispCase) []vf.Finding {
 			return []vf.Finding{vf.F(subject, "wrong-structure-for-code-and-direction", "decoded as %s, MS-CIFS designates %s", got, want)}
 		}
 	}
-	if m.Header.Command != codes.CommandCode(c.Code) || m.Header.IsResponse() != c.Reply {
+	if m.Header.Command != codes.CommandCode(c.Code) || m.Header.IsResponse() != c.Reply || uint32(m.Header.Status) != c.Status {
 		return []vf.Finding{vf.F(subject, "decoded-header-fields-differ", "%+v", *m.Header)}
 	}
 	return nil
@@ -196,6 +229,9 @@ func expectedType(c dispCase) (string, bool) {
 	if !ok {
 		return "", false
 	}
+	if c.Code == 0x1D && c.Reply {
+		return "WriteRawFinal", true // the final response; the interim one is accepted as well
+	}
 	if c.Reply {
 		return base + "Response", true
 	}
@@ -203,22 +239,37 @@ func expectedType(c dispCase) (string, bool) {
 }
 
 func implemented(c dispCase) bool {
-	for _, e := range smbgen.Inventory() {
-		if e.Code == c.Code && e.Response == c.Reply {
-			return true
-		}
-	}
-	return false
+	n, ok := expectedType(c)
+	return ok && frozen[n]
 }
 
 func TestDispatchExhaustive(t *testing.T) {
 	s := vf.Begin(t, P, "dispatch-exhaustive")
 	s.SetExhaustive()
-	s.Note("all 256 command codes x reply flag; %d (code, direction) pairs are implemented by the factories", len(smbgen.Inventory()))
+	n := 0
+	for code := 0; code < 256; code++ {
+		for _, r := range []bool{false, true} {
+			if implemented(dispCase{Code: uint8(code), Reply: r}) {
+				n++
+			}
+		}
+	}
+	s.Note("all 256 command codes x reply flag x Status {0, STATUS_MORE_PROCESSING_REQUIRED, STATUS_BUFFER_OVERFLOW, 0xFFFFFFFF} with empty blocks, and the %d implemented (code, direction) pairs (frozen table; the factories serve %d) once more with the blocks of their factory-fresh structure", n, len(smbgen.Inventory()))
+	if n != len(frozen) {
+		t.Fatalf("INFRA: the code table designates %d of the %d frozen structures", n, len(frozen))
+	}
 	vf.Enum(s, func(yield func(dispCase)) {
 		for code := 0; code < 256; code++ {
-			yield(dispCase{uint8(code), false})
-			yield(dispCase{uint8(code), true})
+			for _, st := range []uint32{0, 0xC0000016, 0x80000005, 0xFFFFFFFF} {
+				for _, r := range []bool{false, true} {
+					c := dispCase{uint8(code), r, st, false}
+					yield(c)
+					if implemented(c) {
+						c.Body = true
+						yield(c)
+					}
+				}
+			}
 		}
 	}, checkDispatch, func(c dispCase) bool { _, ok := codeNames[c.Code]; return ok })
 }
@@ -287,9 +338,21 @@ func checkFraming(c msgCase) []vf.Finding {
 	if _, _, _, err := frame(wire); err != nil {
 		fs = append(fs, vf.F(c.Struct, "framing-counts-do-not-match-emitted-lengths", "%v", err))
 	}
-	// decode: same header fields and a structure of the same type
+	// decode: same header fields and a structure of the same type. A populated, well-framed message that
+	// the library produced and cannot read back is a violation whatever the reason (the kind tells an
+	// error from a panic, not the wording).
 	back := message.NewMessage()
-	if err := safeUnmarshal(back, wire); err == nil && back.Command != nil {
+	if err := safeUnmarshal(back, wire); err != nil {
+		if len(fs) == 0 {
+			kind := "decode-error"
+			if strings.HasPrefix(err.Error(), "panic:") {
+				kind = "decode-panic"
+			}
+			fs = append(fs, vf.F(c.Struct, kind, "own encoding (%d bytes, status %#x) rejected: %v", len(wire), c.Header.Status, err))
+		}
+	} else if back.Command == nil || reflect.ValueOf(back.Command).IsNil() {
+		fs = append(fs, vf.F(c.Struct, "decoded-without-command", "no error and no command"))
+	} else {
 		if got := reflect.TypeOf(back.Command).Elem().Name(); got != c.Struct && !(c.Struct == "WriteRawFinal" || c.Struct == "WriteRawInterim") {
 			fs = append(fs, vf.F(c.Struct, "wrong-structure-for-code-and-direction", "decoded as %s", got))
 		}
@@ -312,11 +375,26 @@ func safeUnmarshal(m *message.Message, wire []byte) (err error) {
 	return m.Unmarshal(wire)
 }
 
+// genMsg draws a structure and fills it; maxBytes bounds every single buffer. All buffers of a structure
+// share one data block of at most 65535 bytes (ByteCount is 16 bits), so the bound is lowered to what
+// the structure's buffers can reach together (a pad that mirrors another buffer's length counts twice).
 func genMsg(t *rapid.T, maxBytes int) msgCase {
 	names := smbgen.Names()
 	name := names[rapid.IntRange(0, len(names)-1).Draw(t, "struct")]
 	e, _ := smbgen.ByName(name)
 	cmd := smbgen.New(e)
+	buffers := 0
+	for _, f := range smbgen.OwnFields(cmd) {
+		if smbgen.IsByteField(f.Type) {
+			buffers++
+			if _, mirrored := smbgen.CountFor(name, f.Name); mirrored {
+				buffers++
+			}
+		}
+	}
+	if buffers > 0 && maxBytes > 64000/buffers {
+		maxBytes = 64000 / buffers
+	}
 	smbgen.Fill(t, cmd, smbgen.Options{MaxBytes: maxBytes})
 	return msgCase{genHdr(t), name, smbgen.Snapshot(cmd), rapid.IntRange(2, 5).Draw(t, "repeats")}
 }
@@ -441,4 +519,98 @@ func TestBlockLimits(t *testing.T) {
 			}
 		}
 	}, checkBlockLimits, func(c blockCase) bool { return c.Words > 0 && c.Bytes > 0 })
+}
+
+// ---- the same limits from the encoding side ------------------------------------------------------------
+//
+// SMB_COM_ECHO carries an arbitrary data block in both directions, so its structures reach the byte-count
+// limit through message.Marshal: data of 0 .. 65535 bytes (ByteCount is 16 bits; the 37 bytes in front of
+// the data come on top, so the message itself is longer than 65535 bytes from 65499 data bytes on, which
+// the property allows: its length is 32 + 1 + 2*words + 2 + bytes). The bytes must be framed exactly
+// and decode back to the same header, structure type, word and data.
+
+type limitCase struct {
+	Reply bool   `json:"reply"`
+	Len   int    `json:"data_len"`
+	Word  uint16 `json:"word"` // EchoCount / SequenceNumber
+	Seed  uint8  `json:"seed"` // data byte i is Seed + i*7
+}
+
+func checkEncodeLimits(c limitCase) []vf.Finding {
+	name := map[bool]string{false: "EchoRequest", true: "EchoResponse"}[c.Reply]
+	e, ok := smbgen.ByName(name)
+	if !ok {
+		return []vf.Finding{vf.F(name, "implemented-pair-rejected", "the factories do not create %s", name)}
+	}
+	data := make([]byte, c.Len)
+	for i := range data {
+		data[i] = c.Seed + byte(i*7)
+	}
+	set := func(cmd smbgen.Cmd) {
+		rv := reflect.ValueOf(cmd).Elem()
+		rv.FieldByName(smbgen.OwnFields(cmd)[0].Name).SetUint(uint64(c.Word)) // EchoCount / SequenceNumber: the one parameter word
+		rv.FieldByName("Data").SetBytes(append([]byte{}, data...))
+	}
+	cmd := smbgen.New(e)
+	set(cmd)
+	m := message.NewMessage()
+	m.Header.Status = 0x01020304
+	m.Header.MID = 0x0506
+	if c.Reply {
+		m.Header.SetFlags(0x80)
+	}
+	m.AddCommand(cmd)
+	wire, err := m.Marshal()
+	if err != nil {
+		return []vf.Finding{vf.F(name, "marshal-error", "%d data bytes: %v", c.Len, err)}
+	}
+	var fs []vf.Finding
+	wc, words, got, ferr := frame(wire)
+	switch {
+	case ferr != nil:
+		fs = append(fs, vf.F(name, "framing-counts-do-not-match-emitted-lengths", "%d data bytes: %v", c.Len, ferr))
+	case wc != 1 || len(wire) != 32+1+2+2+c.Len:
+		fs = append(fs, vf.F(name, "framing-counts-do-not-match-emitted-lengths", "%d data bytes: %d words, message of %d bytes", c.Len, wc, len(wire)))
+	case !bytes.Equal(got, data) || !bytes.Equal(words, []byte{byte(c.Word), byte(c.Word >> 8)}):
+		fs = append(fs, vf.F(name, "block-content-differs", "%d data bytes: words %x, first data bytes %x want %x", c.Len, words, got[:min(len(got), 6)], data[:min(len(data), 6)]))
+	}
+	if len(wire) < 32 || !bytes.Equal(wire[:32], mustHeader(m)) {
+		fs = append(fs, vf.F(name, "message-does-not-start-with-its-header", ""))
+	}
+	back := message.NewMessage()
+	if err := safeUnmarshal(back, wire); err != nil {
+		kind := "decode-error"
+		if strings.HasPrefix(err.Error(), "panic:") {
+			kind = "decode-panic"
+		}
+		return append(fs, vf.F(name, kind, "own encoding with %d data bytes rejected: %v", c.Len, err))
+	}
+	if back.Command == nil || reflect.ValueOf(back.Command).IsNil() || reflect.TypeOf(back.Command).Elem().Name() != name {
+		return append(fs, vf.F(name, "wrong-structure-for-code-and-direction", "decoded as %T", back.Command))
+	}
+	if hb, _ := back.Header.Marshal(); !bytes.Equal(hb, wire[:32]) {
+		fs = append(fs, vf.F(name, "decoded-header-fields-differ", "%x vs %x", hb, wire[:32]))
+	}
+	want := smbgen.New(e)
+	set(want)
+	word := smbgen.OwnFields(want)[0].Name
+	bv, wv := reflect.ValueOf(back.Command).Elem(), reflect.ValueOf(want).Elem()
+	if bv.FieldByName(word).Uint() != wv.FieldByName(word).Uint() || !bytes.Equal(bv.FieldByName("Data").Bytes(), data) {
+		fs = append(fs, vf.F(name, "decoded-blocks-differ", "%d data bytes: %s %#x, %d data bytes decoded", c.Len, word, bv.FieldByName(word).Uint(), bv.FieldByName("Data").Len()))
+	}
+	return fs
+}
+
+func TestEncodeLimits(t *testing.T) {
+	s := vf.Begin(t, P, "encode-block-limits")
+	s.SetExhaustive()
+	lens := []int{0, 1, 2, 255, 256, 257, 4096, 32767, 32768, 65497, 65498, 65499, 65500, 65533, 65534, 65535}
+	s.Note("EchoRequest and EchoResponse through message.Marshal with data blocks of %v bytes", lens)
+	vf.Enum(s, func(yield func(limitCase)) {
+		for _, r := range []bool{false, true} {
+			for i, n := range lens {
+				yield(limitCase{r, n, 0x0102 + uint16(i)<<8, byte(0x30 + i)})
+			}
+		}
+	}, checkEncodeLimits, func(c limitCase) bool { return c.Len > 0 })
 }
